@@ -186,17 +186,31 @@ def default_timeouts_wiring(env):
             (dict(order=order, server_inbound_ms=150, handler_ms=1500), 'server-408'),
             (dict(order=order, client_outbound_ms=150, server_inbound_ms=150, handler_ms=10), 'success'),
             (dict(order=order, handler_ms=300), 'success'),
-        ]:
+        ] + ([
+            # the deadline covers the WHOLE call, including the wait for a stream the remote has no credit left for
+            (dict(order=order, client_outbound_ms=600, handler_ms=4000, server_bidi_streams=1, earlier_calls=1, within_ms=1000), 'client-timeout'),
+        ] if order == 'no_layer' else []):
+            limit = sc.get('within_ms', 1200)
             got = _run('default_timeouts', sc, env)
             cases += 1
+            if want == 'client-timeout' and not (got.get('outcome') == 'error' and got.get('elapsed_ms', 10**9) < limit):
+                got = _run('default_timeouts', sc, env)       # real time on a shared machine: once more before it is believed
             if want == 'client-timeout':
-                ok = got.get('outcome') == 'error' and got.get('elapsed_ms', 10**9) < 1200
+                ok = got.get('outcome') == 'error' and got.get('elapsed_ms', 10**9) < limit
             elif want == 'server-408':
                 ok = got.get('outcome') == 'response' and got.get('status') == 408 and got.get('elapsed_ms', 10**9) < 1200
             else:
                 ok = got.get('outcome') == 'response' and got.get('status') == 200
             if not ok:
                 fails.append(dict(scenario='default_timeouts', args=sc, expected=dict(outcome=want), observed=got))
+    # the serving side alone (the caller is not anemo and enforces nothing): the header counts with and without a configured inbound default
+    for (sc, want) in [(dict(handler_ms=2000, header_ms=300), 408), (dict(handler_ms=2000, header_ms=300, server_inbound_ms=5000), 408),
+                       (dict(handler_ms=2000, header_ms=5000, server_inbound_ms=300), 408), (dict(handler_ms=100, header_ms=5000), 200), (dict(handler_ms=100), 200)]:
+        got = _run('header_only_deadline', sc, env)
+        cases += 1
+        ok = got.get('outcome') == 'response' and got.get('status') == want and (want == 200 or got.get('elapsed_ms', 10**9) < 1300)
+        if not ok:
+            fails.append(dict(scenario='header_only_deadline', args=sc, expected=dict(outcome='response', status=want, note='cut off at min(default, header) although the caller enforces nothing' if want == 408 else ''), observed=got))
     return dict(name='default_timeouts_wiring', validates='Builder::start installs the timeout layers with the configured defaults around the user service and around every outbound call, whatever the order of builder calls',
                 cases=cases, failed=fails, ok=not fails, props=['C11'],
                 clause='the configured defaults take effect on every RPC made through a network: a handler needing more is cut off at that deadline (RequestTimeout on the serving side, a timeout error on the calling side)')
@@ -264,7 +278,11 @@ def history_c03(env):
             return 'a dial naming the identity at that address must succeed, return exactly it and have it listed on return'
         if s[1]['ok'] or s[1]['a_lists_c'] or s[1]['c_lists_a']:
             return 'a dial naming B that is answered by C must fail and neither side may list the other because of it'
-        if not (s[2]['ok'] and s[2]['returned_is_c'] and s[2]['a_lists_c_on_return']):
+        s2b = [x for x in s if x['step'] == "A dials B's address naming C"]
+        if not s2b or s2b[0]['ok'] or s2b[0]['a_lists_c'] or not s2b[0]['a_still_lists_b']:
+            return 'a second dial of the SAME address naming another identity must fail (the party answering there is still B) and change nothing'
+        s3 = [x for x in s if x['step'] == 'A dials C unnamed'][0]
+        if not (s3['ok'] and s3['returned_is_c'] and s3['a_lists_c_on_return']):
             return 'an unnamed dial returns the identity of the party actually reached, which is listed on return'
         return None
     return _history_check(env, 'history_c03', ['C03'], 'a dial that names an identity reaches only that identity; any successful dial returns the identity reached, already in the connected set', pred)
@@ -279,7 +297,7 @@ def history_c04(env):
             return 'snapshot + events replays to %s but the listing is %s' % (r, g['final_listing_on_a'])
         if len(set(g['final_listing_on_a'])) != len(g['final_listing_on_a']):
             return 'duplicate in the listing'
-        s = g['steps'][3]
+        s = [x for x in g['steps'] if x['step'] == 'B dials A (mutual)'][0]
         if s['a_lists_b'] != 1 or s['b_lists_a'] != 1 or not s['rpc_a_to_b'] or not s['rpc_b_to_a']:
             return 'after a mutual dial each side must list the other exactly once and RPCs must work both ways'
         return None
@@ -288,7 +306,7 @@ def history_c04(env):
 
 def history_c09(env):
     def pred(g):
-        s = g['steps'][4]
+        s = [x for x in g['steps'] if x['step'] == 'A disconnects C'][0]
         if not s['ok'] or s['a_lists_c_after'] or s['rpc_to_c_after']:
             return 'an explicit disconnect removes the peer at once and later RPCs to it fail'
         lost = [e for e in g['events_on_a'] if e.get('lost') == g['ids']['c']]
